@@ -14,7 +14,8 @@ EXPLANATION = (
     'formula text -> XLFormula with the cell\'s sheet, cached value (cvalue) -> XLCell.value, otherwise value -> XLCell.value '
     'and no formula, both maps receive the formula; the openpyxl patch captures the cached value next to the formula; '
     '(C11.4) the target text of a defined name is normalised like cell keys ($ removed and sheet name unquoted) before it is '
-    'looked up; (C11.5) parse_archive runs the build steps in dependency order.')
+    'looked up; (C11.5) parse_archive runs the build steps in dependency order; (C11.6) the address resolvers used for range '
+    'targets of defined names unquote the sheet name.')
 NOT_DECIDED = ('the SpreadsheetML storage forms, shared-formula expansion and the patched worksheet reader (openpyxl '
                'behaviour), equality of values')
 TRUSTED = ['openpyxl cell attributes (.coordinate, .data_type, .value) and defined_names mapping']
@@ -161,11 +162,37 @@ def rule_3(ctx):
     ok = any(isinstance(a, ast.Assign) and isinstance(a.targets[0], ast.Subscript) and isinstance(a.targets[0].slice, ast.Constant)
              and a.targets[0].slice.value == 'cvalue' for a in walk_local(pc))
     ctx.expect(ok, pc, 'patched parser records cvalue', 'the patched cell parser no longer records the cached value')
+    # must-define: every formula cell gets the key that bind_cells reads for every formula cell
+    stores = [a for a in walk_local(pc) if isinstance(a, ast.Assign) and isinstance(a.targets[0], ast.Subscript)
+              and isinstance(a.targets[0].slice, ast.Constant) and a.targets[0].slice.value == 'cvalue']
+    for a in stores:
+        conds = [c for c in flow.path_conditions(a, check_kills=False) if c.kind in ('if', 'guard', 'while')]
+        def conjuncts(t):
+            if isinstance(t, ast.BoolOp) and isinstance(t.op, ast.And):
+                out = []
+                for v in t.values:
+                    out += conjuncts(v)
+                return out
+            return [t]
+
+        def is_f_test(t):
+            return isinstance(t, ast.Compare) and len(t.ops) == 1 and isinstance(t.ops[0], ast.Eq) \
+                and 'data_type' in ast.unparse(t.left) and isinstance(t.comparators[0], ast.Constant) and t.comparators[0].value == 'f'
+        only_f = all(c.polarity and all(is_f_test(x) for x in conjuncts(c.test)) for c in conds)
+        ctx.expect(only_f and len(conds) <= 1, a, "cell['cvalue'] is set for every formula cell",
+                   f"cell['cvalue'] is only set under `{' and '.join(ast.unparse(c.test)[:40] for c in conds)}` while bind_cells reads it "
+                   "for every formula cell: a formula stored without a cached value (<c><f>..</f></c>) raises KeyError on load")
     bc = pm.func('WorksheetReader.bind_cells')
     ok = any(isinstance(a, ast.Assign) and isinstance(a.targets[0], ast.Attribute) and a.targets[0].attr == 'cvalue'
              and isinstance(a.value, ast.Subscript) and isinstance(a.value.slice, ast.Constant) and a.value.slice.value == 'cvalue'
              for a in walk_local(bc))
     ctx.expect(ok, bc, 'bound cell carries cvalue', 'bind_cells does not copy the cached value onto the cell')
+    reads = [a for a in walk_local(bc) if isinstance(a, ast.Assign) and isinstance(a.value, ast.Subscript)
+             and isinstance(a.value.slice, ast.Constant) and a.value.slice.value == 'cvalue']
+    for a in reads:
+        conds = [c for c in flow.path_conditions(a, check_kills=False) if c.kind in ('if', 'guard')]
+        ctx.expect(len(conds) == 1 and "'f'" in ast.unparse(conds[0].test), a, "cell['cvalue'] is read for formula cells only",
+                   "bind_cells reads cell['cvalue'] outside the formula-cell branch")
     rd = rm.func('Reader.read')
     ok = any(isinstance(w, ast.With) and 'openpyxl_WorksheetReader_patch' in ast.unparse(w.items[0].context_expr)
              and any('load_workbook' in ast.unparse(s) for s in w.body) for w in walk_local(rd))
@@ -226,10 +253,16 @@ def rule_5(ctx):
     ctx.floor(4, 'build order facts')
 
 
+def rule_6(ctx):
+    from . import c03
+    c03.rule_7(ctx)
+
+
 RULES = [
     ('C11.1', 'ignored sheets contribute no cells', rule_1),
     ('C11.2', 'defined names honour ignore_sheets', rule_2),
     ('C11.3', 'what a formula cell stores', rule_3),
     ('C11.4', 'defined-name targets are normalised like cell keys', rule_4),
     ('C11.5', 'build order of parse_archive', rule_5),
+    ('C11.6', 'range targets of defined names are unquoted by the address resolvers (shared with C03.7)', rule_6),
 ]
